@@ -93,6 +93,7 @@ def _swarm_feat(cfg):
     f["rtcalls"] = cfg.random() < 0.6
     f["rec_builtin"] = cfg.random() < 0.4
     f["joins"] = cfg.random() < 0.4
+    f["pathspell"] = cfg.random() < 0.15
     f["shadows"] = cfg.random() < 0.3
     f["vardefaults"] = f["defaults"] and cfg.random() < 0.4
     if f["vardefaults"] and cfg.random() < 0.7:
@@ -215,6 +216,12 @@ def gen_program(rng, feat):
     if feat.get("loads"):
         _add_loads(prog, rng, feat)
     _fix_rt_refs(prog, rng, feat)
+    if feat.get("pathspell"):
+        # the same path written in another way (trailing / doubled / leading separator)
+        for f in funcs.values():
+            for it in f["body"]:
+                if it["t"] in ("load", "keep") and it.get("pathform", "lit") == "lit" and rng.random() < 0.4:
+                    it["pspell"] = rng.choice(["trail", "dbl", "lead"])
     if feat.get("joins"):
         # some kept calls start on the line of the previous statement
         for f in funcs.values():
